@@ -133,3 +133,19 @@ def build(ctx, res):
     res.samples.append({"obligation": "kani:cdc:include_is_closed_interval_in_file",
                         "contract": "include(path,line,column) == (in_file(beg.source,path) && pos_le(beg,(line,column)) && pos_le((line,column),end)) for beg <= end"})
     return [KaniJob("cdc", lib, hs, deps={}, items=items, trusted=TRUSTED, jobs=4, timeout=2400, per_harness_timeout=900)]
+
+
+def replay(ctx, res, failure):
+    """called when CBMC's concrete playback produced no input (it is slow: ~5 min per harness and has a fixed 600 s limit): run the SAME
+    harness function natively on small-value-biased pseudo-random draws until it panics; prints FOUND {json}"""
+    from vp.core import native_search
+    from vp import kani_run
+    job = failure["job"]
+    names = [h.name for h in job.harnesses]
+    table = "pub fn vp_harness(n: &str) -> Option<fn()> {\n    match n {\n" + "".join(
+        '        "%s" => Some(%s as fn()),\n' % (h.split("::")[-1], h) for h in names) + "        _ => None,\n    }\n}\n"
+    lib = re.sub(r"(?m)^(\s*(?:pub(?:\([a-z]+\))? )?mod (?!kani\b)\w+ \{[ \t]*)$", r"\1\n#[allow(unused_imports)] use crate::kani;", job.lib_rs)
+    body = ("#![allow(dead_code, unused_imports, unused_variables, unused_mut, unused_parens, unused_macros, unreachable_code, unexpected_cfgs)]\n"
+            + kani_run.SHIM + lib + "\n" + table + ctx.unit_file("cdc", "search.rs"))
+    return native_search(ctx, "cdc", "cdc_" + failure["harness"].name.split("::")[-1][:40], body,
+                         args=[failure["harness"].name.split("::")[-1], ctx.seed], timeout=600)
